@@ -1,3 +1,3 @@
 SPECIFICATION Spec
+CONSTANT Which = "C07"
 INVARIANTS C07_NoAcceptAfterSignal C07_NoServiceAfterSignal C07_ReturnsOk C07_InflightCompletes C07_ToldAtMostOnce C07_OpenToldAndClosed C07_DriversEnd
-POSTCONDITION Consumed
